@@ -11,6 +11,10 @@
 //!     the model's claim is "same for every T": the driver echoes `same <digest>`.  When the input is
 //!     outside the premise of the theorems (a frame is built and its sums are not exact: K6 applies) the
 //!     digest is prefixed `inexact-frame:` and the driver prints `skip`; the oracle still compares.
+//!     Stream `t` (rcb / rcbf only) = rounded-distance ties across block seams (defect N11, fixed by
+//!     /repo f4e2819): two DIFFERENT coordinates on the split axis are equally near the first split
+//!     target after the f32 subtraction rounds, and sit in different blocks of the cut search's fold;
+//!     `shape` 0 is the N11 input verbatim, `shape` s >= 1 a randomised variant at scale 2^(s-1).
 //! * `dual <kind> <nx> <ny> <nz> <seed> <digest|->`  the tools' dual graph, CSR arrays byte-wise.
 //! * `parsum gen <seed> <n> <lo> <hi>` | `parsum lit <n> <v…>`  rayon's own `sum`, `fold/reduce`,
 //!     `fold_with/reduce_with`, `filter/count`, `map/collect` under several pools and `with_max_len`
@@ -100,6 +104,9 @@ struct Cloud {
     ws: Vec<i64>,
     /// every f64 sum of the frame computation is exact (decided from the data, not from the stream)
     exact_frame: bool,
+    /// stream `t`: indices of two points with different coordinates that are equally near the first
+    /// split target (after rounding) and lie in different blocks of the fold
+    tie: Option<(usize, usize)>,
 }
 
 /// Decides `ExactSums` for the frame computation: integral centroid, all sums of
@@ -216,7 +223,7 @@ fn generic_cloud(seed: u64, dim: usize, n: usize, shape: usize, wmode: usize) ->
     }
     let ws = gen_weights(&mut rng, n, wmode);
     let exact = exact_frame(&pts, dim);
-    Cloud { pts, ws, exact_frame: exact }
+    Cloud { pts, ws, exact_frame: exact, tie: None }
 }
 
 /// Stream (ii): "exact-frame" clouds. Offsets come in full sign orbits around an
@@ -251,7 +258,86 @@ fn exact_cloud(seed: u64, dim: usize, n: usize, shape: usize, wmode: usize) -> C
     rng.shuffle(&mut pts);
     let ws = gen_weights(&mut rng, pts.len(), wmode);
     let exact = exact_frame(&pts, dim);
-    Cloud { pts, ws, exact_frame: exact }
+    Cloud { pts, ws, exact_frame: exact, tie: None }
+}
+
+/// Stream (iii): rounded-distance ties across block seams (defect N11, fixed by /repo f4e2819).
+///
+/// `par_rcb_split` looks for the point nearest to the right of the split target with a parallel
+/// `fold(..).reduce(..)` over blocks of at least 4096 points; `point - split_target` is an f32
+/// subtraction.  The cloud: a far-left cluster at `lo = c - 4D`, a far-right cluster at
+/// `hi = c + 2D` (even / odd indices, so the first target `lo/2 + hi/2 = c - D` balances the
+/// weights and the search returns at once when the tolerance is positive), and a few "tie" points
+/// at `c` and `c + delta` with `D = 2^(24+k)`, `0 < delta <= 2^k`: their distances `D` and
+/// `D + delta` both round to `D` (ulp `2^(k+1)`), every quantity above is exactly representable
+/// in f32 (`c` is a multiple of `2^(k+3)`).  Two tie points with DIFFERENT coordinates are put
+/// into sibling sub-blocks of rayon's halving of the index range (quarters or eighths, never
+/// shorter than 4096), so whether they meet inside one sequential fold or in the reduce depends
+/// on the number of blocks, i.e. on the pool size.  Whichever of them becomes the pivot decides
+/// the side of the other.  `shape` 0: the N11 input verbatim (k = 0, c = 0, indices 1 and 5000).
+fn tie_cloud(seed: u64, dim: usize, n: usize, shape: usize, wmode: usize) -> Cloud {
+    let mut rng = Rng::new(seed ^ 0x7135_0011);
+    let mut pts = vec![[0i64; 3]; n];
+    let mut tie = None;
+    if shape == 0 && n > 5000 {
+        for (i, p) in pts.iter_mut().enumerate() {
+            p[0] = if i % 2 == 0 { -(1i64 << 26) } else { 1i64 << 25 };
+            p[1] = (i % 5) as i64;
+        }
+        pts[1][0] = 1;
+        pts[5000][0] = 0;
+        tie = Some((1, 5000));
+    } else if n >= 16 {
+        let k = (shape.max(1) - 1).min(20) as u32;
+        let unit = 1i64 << (k + 3);
+        let d = 1i64 << (24 + k);
+        let c = rng.range(-8, 8) * unit;
+        let (lo, hi) = (c - 4 * d, c + 2 * d);
+        let delta = if k == 0 || rng.chance(1, 2) { 1 } else { rng.range(1, 1i64 << k) };
+        for (i, p) in pts.iter_mut().enumerate() {
+            let j = rng.range(0, 3) * unit;
+            p[0] = if i % 2 == 0 { lo + j } else { hi - j };
+            for (a, x) in p.iter_mut().enumerate().take(dim).skip(1) {
+                *x = if a == 1 { (i % 5) as i64 } else { rng.range(0, 9) };
+            }
+        }
+        // the tie pair: sibling sub-blocks at depth q of rayon's halving (left half = len / 2)
+        let qmax = if n / 8 >= 4096 { 3 } else { 2 };
+        let q = 2 + rng.usize(qmax - 1);
+        let (mut s, mut e) = (0usize, n);
+        for _ in 0..q - 1 {
+            let mid = s + (e - s) / 2;
+            if rng.chance(1, 2) {
+                e = mid
+            } else {
+                s = mid
+            }
+        }
+        let mid = s + (e - s) / 2;
+        let a = s + rng.usize(mid - s);
+        let b = mid + rng.usize(e - mid);
+        let a_high = rng.chance(1, 2);
+        pts[a][0] = if a_high { c + delta } else { c };
+        pts[b][0] = if a_high { c } else { c + delta };
+        let mut used = vec![a, b];
+        // further tie points in earlier blocks (the repaired code then names the first of them)
+        if s > 0 {
+            for _ in 0..rng.usize(3) {
+                let x = rng.usize(s);
+                pts[x][0] = if rng.chance(1, 2) { c } else { c + delta };
+                used.push(x);
+            }
+        }
+        // the bounding box is [lo, hi] exactly
+        let mut free = (0..n).rev().filter(|i| !used.contains(i));
+        if let (Some(i), Some(j)) = (free.next(), free.next()) {
+            pts[i][0] = lo;
+            pts[j][0] = hi;
+        }
+        tie = Some((a, b));
+    }
+    let ws = gen_weights(&mut rng, n, wmode);
+    Cloud { pts, ws, exact_frame: false, tie }
 }
 
 // ------------------------------------------------------------------ running the partitioners
@@ -430,7 +516,11 @@ fn part_case(
     pools: Vec<usize>,
     reps: usize,
 ) -> PartResult {
-    let cloud = if stream == "x" { exact_cloud(seed, dim, n, shape, wmode) } else { generic_cloud(seed, dim, n, shape, wmode) };
+    let cloud = match stream.as_str() {
+        "x" => exact_cloud(seed, dim, n, shape, wmode),
+        "t" => tie_cloud(seed, dim, n, shape, wmode),
+        _ => generic_cloud(seed, dim, n, shape, wmode),
+    };
     let prm = Params { algo: algo.clone(), p1, p2 };
     let mut counts = vec![];
     let reference = run_algo(&cloud, dim, &prm, 1);
@@ -447,6 +537,14 @@ fn part_case(
         counts.push("input:exact-frame".into());
     } else {
         counts.push("input:inexact-frame".into());
+    }
+    if stream == "t" {
+        counts.push(format!("tie:scale:2^{}", if shape == 0 { 0 } else { (shape - 1).min(20) }));
+        // the two tie points differ by less than any other gap: they end in different parts iff
+        // one of them was a pivot, i.e. iff the cut search really returned on the tie
+        if let (Some((a, b)), Outcome::Ids(v)) = (cloud.tie, &reference) {
+            counts.push(if v[a] != v[b] { "tie:pair-separated-by-a-pivot".to_string() } else { "tie:pair-not-separated".to_string() });
+        }
     }
     let mut first_diff: Option<(usize, usize, String)> = None;
     let mut ndiff_runs = 0usize;
@@ -752,6 +850,31 @@ pub fn generate(ctx: &mut Ctx) {
             run_op(ctx, &format!("part {} {} {} {} {} {} {} {} {} -", algo, stream, dim, n, shape, wmode, seed, p1, p2));
         }
     }
+    // ---- rounded-distance ties across block seams (N11) ------------------------------
+    // Rcb only (Rib rotates the cloud with f64 arithmetic first: the ties do not survive).
+    // >= 16 384 points: with_min_len(4096) and one thread give two blocks, more threads four or more.
+    {
+        let sizes = [16_384usize, 20_001, 32_769, 40_000];
+        let mut c = 0usize;
+        // the N11 input verbatim, both weight types, each size
+        for &n in &sizes {
+            for algo in ["rcb", "rcbf"] {
+                run_op(ctx, &format!("part {} t 2 {} 0 0 0 1 1 -", algo, n));
+            }
+        }
+        for _ in 0..ctx.budget(28, 120) {
+            let algo = if c % 3 == 2 { "rcbf" } else { "rcb" };
+            let n = sizes[c % sizes.len()];
+            c += 1;
+            let dim = 2 + ctx.rng.usize(2);
+            let shape = 1 + ctx.rng.usize(13); // scale 2^0 … 2^12
+            let wmode = *ctx.rng.pick(&[0usize, 0, 1, 3]);
+            let seed = ctx.rng.below(1 << 32);
+            let p1 = 1 + ctx.rng.usize(3);
+            let p2 = 1 + ctx.rng.usize(2); // tolerance 0.05 / 0.1: the search returns on the first target
+            run_op(ctx, &format!("part {} t {} {} {} {} {} {} {} -", algo, dim, n, shape, wmode, seed, p1, p2));
+        }
+    }
     // ---- dual graph ----------------------------------------------------------
     for _ in 0..ctx.budget(8, 40) {
         let kind = *ctx.rng.pick(&["tri", "quad", "mixed", "hex", "tet"]);
@@ -794,6 +917,7 @@ pub fn generate(ctx: &mut Ctx) {
         "part foo g 2 10 0 0 1 1 1 -",
         "part rcb g 4 10 0 0 1 1 1 -",
         "part rcb q 2 10 0 0 1 1 1 -",
+        "part rib t 2 16384 0 0 1 1 1 -",
         "dual tri 3 3",
         "frame 4 100 1 0 -",
         "frame 2 100 1 99 -",
@@ -1036,7 +1160,7 @@ fn find_id_flip(pts: &[[i64; 3]], dim: usize, t_diff: usize, seed: u64, max_shuf
         // sensitive one first, until the time is used up)
         let Some((p, d)) = worst else { continue };
         tried += 1;
-        let cloud = Cloud { ws: vec![1; c.len()], exact_frame: false, pts: c };
+        let cloud = Cloud { ws: vec![1; c.len()], exact_frame: false, pts: c, tie: None };
         for (algo, p1, p2) in algos {
             let prm = Params { algo: algo.to_string(), p1, p2 };
             let reference = run_algo(&cloud, dim, &prm, 1);
@@ -1199,7 +1323,7 @@ fn op_part(ctx: &mut Ctx, op: &str, t: &[&str]) {
     let stream = t[2].to_string();
     if !(dim == 2 || dim == 3)
         || !["rcb", "rcbf", "rib", "hilbert", "zcurve", "mj", "kmeans"].contains(&algo.as_str())
-        || !(stream == "g" || stream == "x")
+        || !(stream == "g" || stream == "x" || (stream == "t" && (algo == "rcb" || algo == "rcbf")))
         || n > 200_000
     {
         return bad(ctx, op);
